@@ -4,7 +4,7 @@ The shared mutex: who can hold it, and what a poisoned mutex means for publicati
 -/
 namespace A2Verif.Srv
 
-variable (an : Text → Option Diags)
+variable (an : Nat → Text → Option Diags)
 
 theorem ids_unique {q : List Job} (hs : (q.map (·.id)).Pairwise (· < ·)) {a b : Job}
     (ha : a ∈ q) (hb : b ∈ q) (hid : a.id = b.id) : a = b := by
@@ -130,7 +130,7 @@ theorem poisoned_step {s s' : State} {e : Event} (hi : LockInv s) (hp : s.lock =
   | harvest j he h => rw [h.lock]; exact hp
 
 def notConfig : Event → Prop
-  | .config _ _ => False
+  | .config _ _ _ => False
   | _ => True
 
 instance : DecidablePred notConfig := fun e => by
@@ -189,7 +189,7 @@ theorem Mute.step {P0 : List Pub} {R : List Nat} {s s' : State} {e : Event} (hnc
       rw [h.queue] at hj
       rcases List.mem_append.mp hj with hj | hj
       · exact hi.cand j hj hc
-      · have hnp := hpriv (by intro l o h; subst h; exact hnc) j hj
+      · have hnp := hpriv (by intro c l o h; subst h; exact hnc) j hj
         have hsp := (h.fresh j hj).1
         rcases hc with hc | ⟨d, hc⟩
         · rw [hnp] at hc; cases hc
